@@ -322,7 +322,7 @@ class Scn:
                     n0 = len(r.datas)
                     self.arm(fault)
                 finalize = bool(op[1]) if k == "frd" else True
-                self.it = lb["RI"]._from_render_data_(r, r.datas[self.cd], None, M.make_pad("E0"), op[2] if k == "frd" else 1,
+                self.it = lb["RI"]._from_render_data_(r, r.datas[self.cd], None, pads()["E"](), op[2] if k == "frd" else 1,
                                                       False, finalize=finalize)
                 self.it_state, self.it_data = "open", self.cd
                 if finalize:
